@@ -171,7 +171,8 @@ class Exec:
                 open(n, "wb").write(data)
 
         total = crash.crash_points(W, lambda: W.save_wallet(w), inspect_and_restore)
-        self.inner_points += max(0, total - 2)
+        total += crash.crash_points(W, lambda: W.save_wallet(w), inspect_and_restore, buffered=True)
+        self.inner_points += max(0, total - 4)
 
 
 class Machine(RuleBasedStateMachine):
